@@ -96,6 +96,10 @@ class QueryPlanner:
     def get_predictor(self, identifier):
         name_parts = list(identifier.parts)
 
+        if len(name_parts) == 1 and name_parts[0] in self.cte_results:
+            # a bare name that is a CTE of the query refers to the CTE, also when a model has the same name
+            return None
+
         version = None
         if len(name_parts) > 1 and name_parts[-1].isdigit():
             # last part is version
